@@ -440,6 +440,12 @@ fn gen_event(r: &mut Rng, lv: &Live) -> Ev {
             _ => cur + 2 + r.below(3),
         }
     };
+    if role == RaftState::Candidate && r.chance(2, 5) {
+        return Ev::Lead;
+    }
+    if role == RaftState::Leader && r.chance(2, 5) {
+        return Ev::Prop { c: 1 + r.below(900) };
+    }
     loop {
         match r.below(100) {
             0..=9 => return Ev::Elect,
@@ -1025,6 +1031,140 @@ fn run_raw(cx: &mut Ctx, r: &mut Rng, case_no: u64) {
     cx.rep.compare("raw.crc", || json!({"bytes": hex(&blob)}), &crc32fast::hash(&blob).to_string(), &cx.m.ask(&format!("crc {}", hex(&blob))));
 }
 
+
+// ---------------------------------------------------------------- snapshot install on a WAL-backed follower
+
+fn prime_leader(n: &RaftNode) {
+    for k in [2u64, 3u64] {
+        let r = AppendEntriesResponse {
+            term: n.current_term(),
+            success: true,
+            follower_id: nid(k),
+            match_index: 0,
+            used_fast_path: false,
+        };
+        n.handle_message(&nid(k), &Message::AppendEntriesResponse(r));
+    }
+}
+
+/// The follower holds `have` entries (acknowledged), a snapshot covering `snap` entries is installed,
+/// the leader's next AppendEntries on top of the snapshot is acknowledged, then crash and restart.
+fn run_snapshot(cx: &mut Ctx, r: &mut Rng, case_no: u64) {
+    let dir = shm_dir();
+    let path = dir.path().join("f.wal");
+    let total = 3 + r.below(5);
+    let have = r.below(total);
+    let snap = (have + 1 + r.below(total - have)).min(total);
+    let extra = 1 + r.below(2);
+    // a real leader (n1) produces the log and the snapshot
+    let leader = RaftNode::new(
+        nid(1),
+        [0u64, 2, 3, 4].iter().map(|k| nid(*k)).collect(),
+        Arc::new(MemoryTransport::new(nid(1))),
+        cfg(),
+    );
+    leader.start_election();
+    leader.become_leader();
+    prime_leader(&leader);
+    for i in 1..=(total + extra) {
+        if leader.propose(mk_block(100 + i)).is_err() {
+            cx.rep.note("snapshot stream: helper leader could not propose");
+            return;
+        }
+    }
+    let lt = leader.current_term();
+    let (_, _, lents, _) = leader.get_entries_for_follower(&"zz".to_string());
+    leader.set_finalized_height(snap);
+    let Ok((meta, data)) = leader.create_snapshot() else {
+        cx.rep.note("snapshot stream: create_snapshot failed");
+        return;
+    };
+    let follower = mk_node(&path).expect("follower");
+    let mut ghost = Ghost::default();
+    let mut hist: Vec<String> = vec![];
+    let send = |f: &RaftNode, prev: u64, ents: &[LogEntry]| -> (bool, u64, u64) {
+        let ae = AppendEntries {
+            term: lt,
+            leader_id: nid(1),
+            prev_log_index: prev,
+            prev_log_term: if prev == 0 { 0 } else { lt },
+            entries: ents.to_vec(),
+            leader_commit: 0,
+            block_embedding: None,
+        };
+        match f.handle_message(&nid(1), &Message::AppendEntries(ae)) {
+            Some(Message::AppendEntriesResponse(x)) => (x.success, x.match_index, x.term),
+            _ => (false, 0, 0),
+        }
+    };
+    let (ok, mi, t) = send(&follower, 0, &lents[..have as usize]);
+    hist.push(format!("ae term={lt} prev=0 entries=1..{have} -> success={ok} match={mi}"));
+    ghost.acted = ghost.acted.max(t);
+    if ok {
+        for e in node_log(&follower).iter().filter(|e| e.0 <= mi) {
+            ghost.acked.insert(*e);
+        }
+    }
+    let inst = follower.install_snapshot(meta.clone(), &data);
+    hist.push(format!("install_snapshot last_index={} last_term={} -> {}", meta.last_included_index, meta.last_included_term, if inst.is_ok() { "ok" } else { "err" }));
+    cx.rep.hit(if inst.is_ok() { "snapshot.installed" } else { "snapshot.rejected" });
+    let (ok2, mi2, t2) = send(&follower, snap, &lents[snap as usize..(snap + extra) as usize]);
+    hist.push(format!("ae term={lt} prev={snap} entries={}..{} -> success={ok2} match={mi2}", snap + 1, snap + extra));
+    ghost.acted = ghost.acted.max(t2);
+    if ok2 {
+        for e in node_log(&follower).iter().filter(|e| e.0 <= mi2) {
+            ghost.acked.insert(*e);
+        }
+        cx.rep.hit("snapshot.ack_on_top");
+    }
+    let mem_log = node_log(&follower);
+    drop(follower);
+    // crash with everything synced; restart
+    let p2 = dir.path().join("p.wal");
+    std::fs::copy(&path, &p2).unwrap();
+    match (mk_node(&path), mk_node(&p2)) {
+        (Ok(rn), Ok(pn)) => {
+            let term = rn.current_term();
+            let log = node_log(&rn);
+            let voted = probe_voted(&pn);
+            let bad = ghost.check(term, &voted, &log);
+            cx.rep.hit(if bad.is_empty() { "snapshot.restart_ok" } else { "snapshot.restart_lost" });
+            if let Some((kind, detail)) = bad.first() {
+                cx.rep.violation(
+                    &format!("tensor_chain.raft.install_snapshot/{}", if *kind == "lost_entry" { "acked_entries_not_durable" } else { kind }),
+                    &format!("{detail} ({} obligations broken): install_snapshot replaces the in-memory log without writing it to the WAL", bad.len()),
+                    json!({"case": case_no, "steps": hist, "log_in_memory_before_crash": log_tok(&mem_log),
+                           "log_after_restart": log_tok(&log), "obligations": ghost.tok()}),
+                );
+            }
+        }
+        _ => {
+            cx.rep.violation("tensor_chain.raft.install_snapshot/restart_fails", "restart failed", json!({"case": case_no, "steps": hist}));
+        }
+    }
+    cx.rep.case("snapshot", Some(&format!("{have}/{snap}/{extra}")));
+}
+
+/// `propose_codebook_replace` (outside C10's listed operations): is the accepted entry logged?
+fn probe_codebook(cx: &mut Ctx) {
+    let dir = shm_dir();
+    let path = dir.path().join("c.wal");
+    let n = mk_node(&path).expect("node");
+    n.start_election();
+    n.become_leader();
+    prime_leader(&n);
+    let snap = n.global_codebook().to_snapshot(1);
+    let res = n.propose_codebook_replace(snap);
+    let before = n.log_length();
+    drop(n);
+    if let (Ok(idx), Ok(rn)) = (res, mk_node(&path)) {
+        let after = rn.log_length();
+        cx.rep.observe(json!({"probe": "propose_codebook_replace on a WAL-backed leader", "accepted_index": idx,
+            "log_len_before_crash": before, "log_len_after_restart": after,
+            "note": if after < before { "entry accepted as leader is NOT written to the WAL (no persist_log_entry call); outside C10's listed operations" } else { "entry survives restart" }}));
+    }
+}
+
 fn main() {
     let args = parse_args();
     let mut rep = Report::new(
@@ -1054,9 +1194,17 @@ fn main() {
         for i in 0..n_raw {
             run_raw(&mut cx, &mut r, i);
         }
+        let mut r = root.fork("snapshot");
+        for i in 0..(if thorough { 200 } else { 30 }) {
+            run_snapshot(&mut cx, &mut r, i);
+        }
+        probe_codebook(&mut cx);
         let mut r = root.fork("chain");
-        let n_chain = if thorough { 120 } else { 40 };
+        // thorough: every byte of every phase for the first 30 scripts, then many more scripts with
+        // boundary±{1,3,7} + random cuts
+        let n_chain = if thorough { 400 } else { 40 };
         for i in 0..n_chain {
+            cx.thorough = thorough && i < 30;
             run_case(&mut cx, &mut r, i, 3);
         }
     }
